@@ -15,7 +15,7 @@ func init() {
 		Technique:   "guarded-sink reachability plus reaching-definitions of the `err` result cell in Store.Download; must-pass-through of the digest comparison in downloadImpl and applyDeltaImpl",
 		Explanation: "Structural necessary conditions for 'a downloaded snap is only kept if its digest matches': (R1) Store.Download reaches os.Rename(w.Name(), targetPath) only across `err == nil` on the result cell, and every definition of that cell reaching the test is the verdict of download(…, downloadInfo.Sha3_384, …, w, …), a constructed non-nil error, or a value that can only survive to the test through the `downloadInfo.Sha3_384 == actualSha3` edge of the local re-hash; every literal success return is the cache hit or a successful delta; the local re-hash reads the whole temp file from offset 0 with io.Copy(h, w); the single retry after a digest mismatch truncates and rewinds the file and restarts at offset 0; (R2) in downloadImpl every path from a successful body copy to the return passes the comparison of the expected digest with the digest of the hash object that was fed by the same MultiWriter as the file, the mismatch edge yields HashError, and the no-resume fallback rewinds the file and replaces the hash; (R3) applyDeltaImpl moves the partial file onto the target only when no digest was requested or the file digest equals it, and removes the partial on mismatch.",
 		NotDecided:  "retry-exhaustion interplay (that a `continue` is only taken when another attempt follows: attempt.More()); server behaviour; the hash function.",
-		Run:         runC31,
+		Run:         func(c *Ctx) { runC31(c); runC31x(c) },
 	})
 }
 
